@@ -7,6 +7,8 @@ CONSTANTS
   MCMaxOps = 2
 INVARIANT RoundTrip
 INVARIANT ExportIsCurrent
+INVARIANT ConversionIdentity
+INVARIANT RoutesKeepPoint
 INVARIANT OpsEffect
 INVARIANT AmbiguityRule
 INVARIANT DetectExact
